@@ -249,18 +249,47 @@ def _small_scalar(rng, t):
 # real classes
 
 
-def build_classes(schema, module=None):
-    """Create the xobjects classes for a schema.  Returns list aligned with schema."""
+def build_classes(schema, module=None, hybrids=None):
+    """Create the xobjects classes for a schema.  Returns list aligned with schema.
+    Structs marked "hybrid" are declared through xo.HybridClass (the list then
+    holds their _XoStruct and `hybrids[index]` the dressing class)."""
     from . import seams
 
     xo = seams.xo
     out = []
+    if hybrids is None:
+        hybrids = {}
     for ty in schema:
         k = ty["k"]
         if k == "sc":
             cls = getattr(xo, ty["t"])
         elif k == "str":
             cls = xo.String
+        elif k == "struct" and ty.get("hybrid"):
+            data = {}
+            for f in ty["fields"]:
+                ft = hybrids.get(f[1], out[f[1]])  # nested hybrid fields are declared with the hybrid class
+                if len(f) > 2 and "default" in f[2]:
+                    d = f[2]["default"]
+                    dv = float(d["f"]) if "f" in d else int(d["i"])
+                    data[f[0]] = xo.Field(ft, default=dv)
+                elif len(f) > 2 and "default_factory" in f[2]:
+                    d = f[2]["default_factory"]
+                    dv = float(d["f"]) if "f" in d else int(d["i"])
+                    data[f[0]] = xo.Field(ft, default_factory=(lambda v=dv: v))
+                else:
+                    data[f[0]] = ft
+            decl = {"_xofields": data}
+            if ty.get("rename"):
+                decl["_rename"] = dict(ty["rename"])
+            H = type(ty["hname"], (xo.HybridClass,), decl)
+            cls = H._XoStruct
+            assert cls.__name__ == ty["name"], (cls.__name__, ty["name"])
+            hybrids[len(out)] = H
+            if module is not None:
+                H.__module__ = module.__name__
+                H.__qualname__ = H.__name__
+                setattr(module, H.__name__, H)
         elif k == "struct":
             data = {}
             for f in ty["fields"]:
